@@ -13,9 +13,9 @@
 (* The constant Props selects which properties judge the events of a run.   *)
 (* The spec is total: every event is consumed, violated clauses are printed.*)
 (***************************************************************************)
-EXTENDS Static, Cors, Json, IOUtils, TLC
+EXTENDS Router, Cors, Json, IOUtils, TLC
 
-CONSTANT Props        \* subset of {"C01","C02","C03","C05","C09","C10"}
+CONSTANT Props        \* subset of {"C01","C02","C03","C05","C09","C10","ROUTER"} (ROUTER: conformance beyond the properties)
 
 Rec == ndJsonDeserialize(IOEnv.TRACE)
 
@@ -52,6 +52,7 @@ Violations(q, r) ==
     \cup (IF "C02" \in Props THEN C02Violations(world, q, r) ELSE {})
     \cup (IF "C03" \in Props THEN C03Violations(world, q, r) ELSE {})
     \cup (IF "C09" \in Props /\ q.method \in {"HEAD", "OPTIONS"} THEN C09Violations(q, lastGet[q.entry], r) ELSE {})
+    \cup (IF "ROUTER" \in Props THEN RouterViolations(world, q, r) ELSE {})
     \cup (IF "C10" \in Props /\ r.raw_len > 0 THEN HardeningViolations(r) ELSE {})
     \cup (IF "C05" \in Props /\ r.raw_len > 0 THEN WellFormedViolations(r, q.method) ELSE {})
     \cup (IF "C04" \in Props /\ r.outcome = "panic" THEN {"C04.panic"} ELSE {})
